@@ -18,6 +18,7 @@ import (
 	"maps"
 	"net/http"
 	"slices"
+	"strings"
 	"time"
 )
 
@@ -59,7 +60,15 @@ func (r *responseStorer) StoreResponse(
 	// Remove hop-by-hop headers as per RFC 9111 §3.1
 	removeHopByHopHeaders(resp)
 
-	vary := resp.Header.Get("Vary")
+	// Several Vary field lines form one list (RFC 9110 §5.3), and a list with
+	// the member "*" means "*" (RFC 9111 §4.1: it never matches).
+	vary := strings.Join(resp.Header.Values("Vary"), ", ")
+	for member := range TrimmedCSVSeq(vary) {
+		if member == "*" {
+			vary = "*"
+			break
+		}
+	}
 	varyResolved := maps.Collect(
 		r.vhn.NormalizeVaryHeader(vary, req.Header),
 	)
